@@ -13,6 +13,9 @@
          report = inst | (desc <provider> <priority in halves> ((<key> <val>)*)) | (err <class>)
      the pool is built the way the platform builds it: every `conf` member is a `[FEED.<ref>]` section resolved by
      `setup.Feed(ref)` (single) or all of them by `setup.Feed.resolve([refs])` (multi: `Importer(*instances, *resolved)`)
+   (c09fault <statement> ((<prio|inf> (feed (<src>*))|(fails <Class>))*)) → (ok <(some i)|none|(raise Class)> (<touched index>*))
+     `Importer.match` on a pool whose lazily configured members may fail to come up (`Slot.instance` raising): the answer
+     and the construction indices of the slots the importer touched, in the order it touched them
    every line may be wrapped as (let ((x sexp) …) body), `$x` atoms are substituted. -/
 import ForML.Model.Sexp
 import ForML.Model.Dsl
@@ -73,6 +76,17 @@ def stepC09 (line : Sexp) : Sexp :=
               match descriptorOf ref sec with
               | .error e => err e
               | .ok d => .list [.atom "desc", .atom d.reference, Sexp.ofInt d.priority, optionsToSexp d.params]))]
+      | _, _ => .atom "bad-op"
+    | .list [.atom "c09fault", stmt, .list slots] =>
+      match Source.ofSexp stmt, slots.mapM FSlot.ofSexp with
+      | some s, some pool =>
+        let r := matchFault pool s
+        .list [.atom "ok",
+          (match r.1 with
+           | .selected i => Sexp.ofOption Sexp.ofNat (some i)
+           | .missing => Sexp.ofOption Sexp.ofNat none
+           | .raised e => .list [.atom "raise", .atom e]),
+          .list (r.2.map Sexp.ofNat)]
       | _, _ => .atom "bad-op"
     | _ => .atom "bad-op"
 
